@@ -22,6 +22,7 @@ TRUSTED_BASE = [
     "class hierarchies read from the installed versions",
     "declared shapes of model objects (dataclass field annotations of /repo, specs/world.py for mypy objects) as preconditions",
     "single-threaded execution; no monkey-patching of the classes under contract",
+    "contract and spec code is total on its stated domain (an index, key or attribute read inside a spec is defined)",
     "loops with sidecar invariants: partial correctness (termination of while loops is not proved); result shapes of a few "
     "external functions as declared in specs/world.py EXTERNAL_RETURNS",
     "solver answers: `unsat` is trusted; an in-process `sat` counts only with a model that evaluates every hypothesis to true "
